@@ -1,0 +1,60 @@
+//go:build verif
+
+package blockchain
+
+import (
+	"github.com/virel-project/virel-blockchain/v3/adb"
+	"github.com/virel-project/virel-blockchain/v3/block"
+	"github.com/virel-project/virel-blockchain/v3/transaction"
+	"github.com/virel-project/virel-blockchain/v3/util"
+	"github.com/virel-project/virel-blockchain/v3/util/uint128"
+)
+
+// Verification hooks (build tag verif). They only call existing code paths synchronously; no logic is added.
+
+// VerifDeliverRaw handles a BLOCK packet payload the way packetBlock + the validator's post-processor do,
+// but synchronously: DeserializeFull, PrevalidateBlock, executePostprocess (one DB.Update).
+// stage: 0 = decode failed, 1 = prevalidation failed, 2 = handed to executePostprocess.
+func (bc *Blockchain) VerifDeliverRaw(data []byte) (stage int, hash util.Hash, err error) {
+	bl := &block.Block{}
+	txs, err := bl.DeserializeFull(data)
+	if err != nil {
+		return 0, hash, err
+	}
+	hash = bl.Hash()
+	bc.BlockQueue.Update(func(qt *QueueTx) {
+		qt.BlockDownloaded(hash)
+	})
+	err = bc.PrevalidateBlock(bl, txs)
+	if err != nil {
+		return 1, hash, err
+	}
+	bc.Validator.executePostprocess(bl, hash, txs)
+	return 2, hash, nil
+}
+
+// VerifDeliver is VerifDeliverRaw for an already decoded block.
+func (bc *Blockchain) VerifDeliver(bl *block.Block, txs []*transaction.Transaction) (stage int, err error) {
+	hash := bl.Hash()
+	err = bc.PrevalidateBlock(bl, txs)
+	if err != nil {
+		return 1, err
+	}
+	bc.Validator.executePostprocess(bl, hash, txs)
+	return 2, nil
+}
+
+// VerifDifficultyEMA exposes the unexported difficultyEMA.
+func VerifDifficultyEMA(solveTime uint64, prevDiff uint128.Uint128) uint128.Uint128 {
+	return difficultyEMA(solveTime, prevDiff)
+}
+
+// VerifHashToCoinIndex exposes the unexported hashToCoinIndex.
+func VerifHashToCoinIndex(hash [32]byte, stakedSupply uint64) uint64 {
+	return hashToCoinIndex(hash, stakedSupply)
+}
+
+// VerifValidateMempoolTx exposes the unexported validateMempoolTx.
+func (bc *Blockchain) VerifValidateMempoolTx(txn adb.Txn, tx *transaction.Transaction, hash [32]byte, previousEntries []*MempoolEntry, nextheight uint64) error {
+	return bc.validateMempoolTx(txn, tx, hash, previousEntries, nextheight)
+}
